@@ -298,8 +298,14 @@ func Run(c *core.Ctx) {
 	faulty := c.Scenario == "faults"
 	e := &env{c: c, faults: map[int]string{}, lastFault: -1}
 	e.routine = routines[t.Pick([]int{4, 3, 2, 2, 2, 3, 2, 5})]
+	lineOnly := c.Scenario == "line-search"
+	if lineOnly {
+		e.routine = "lineSearch"
+	}
 	if e.routine == "newton.RunRoot" {
 		e.sys = genSystem(t)
+	} else if lineOnly && t.Bool(2, 3) {
+		e.fam = genWaves(t)
 	} else {
 		e.fam = genFamily(t)
 	}
@@ -535,6 +541,11 @@ func Run(c *core.Ctx) {
 				return e.objective(x)
 			}
 			var a ad.Scalar
+			alpha1 := []float64{1, 0.1, 10}[t.Choose(3)]
+			if lineOnly {
+				// first trial steps that make the bracketing phase expand and overshoot
+				alpha1 = []float64{0.01, 0.05, 0.2, 0.5, 1, 1.7, 3, 10}[t.Choose(8)]
+			}
 			lsArgs := []interface{}{}
 			if t.Bool(1, 3) {
 				// a constraint on the step: alpha <= lsMax (holds at 0)
@@ -545,7 +556,7 @@ func Run(c *core.Ctx) {
 					return alpha.GetFloat64() <= lsMax
 				}})
 			}
-			a, err = lineSearch.Run(phi, ad.Float64Type, append(lsArgs, lineSearch.Parameters{Alpha1: []float64{1, 0.1, 10}[t.Choose(3)], MaxEval: K},
+			a, err = lineSearch.Run(phi, ad.Float64Type, append(lsArgs, lineSearch.Parameters{Alpha1: alpha1, MaxEval: K},
 				lineSearch.Hook{Value: func(alpha, y, g ad.ConstScalar) bool {
 					e.hookCalls++
 					if e.hookStopAt > 0 && e.hookCalls >= e.hookStopAt {
@@ -750,6 +761,7 @@ func init() {
 		Scenarios: []core.Scenario{
 			{Name: "clean", Weight: 4},
 			{Name: "faults", Weight: 4, Faulty: true},
+			{Name: "line-search", Weight: 2},
 			{Name: "saga", Weight: 1},
 			{Name: "saga-faults", Weight: 1, Faulty: true},
 			{Name: "blahut", Weight: 1},
@@ -765,7 +777,7 @@ func init() {
 			}},
 		},
 		StepUnit: "callbacks into the environment (objective evaluations, constraint evaluations, hook calls)",
-		Rule: "scenarios clean / faults: one run = one routine (BFGS, Rprop, gradient descent, Adam, Newton crit / min / root, line search) on one objective drawn from families with closed-form value, gradient, Hessian and optimum (SPD quadratics n=1..4 with condition number <= 100 built from drawn eigenvalues and rotations, Rosenbrock type, separable quartic, L2-regularised logistic loss, polynomial systems with planted roots), drawn start, epsilon, step sizes, eta, Hessian modification, optional constraint predicate (box / half space that holds at x0). The environment is the objective (derivatives handed back by the chain rule on the seeds stored in x), the constraint and the hook; in the fault scenario it injects up to two transient evaluation faults (error, NaN value, NaN gradient, biased to the first evaluations, i.e. inside the first line searches), a hook cancellation and small caps. Oracles over the recorded history: stopping condition re-evaluated in closed form at the returned point, distance to the minimiser on quadratics, constraint predicate at the returned point, hook arguments vs closed form at the hook's x, strong Wolfe conditions, x0 unchanged. Scenarios saga / saga-faults: saga.Run with the four objective types (Objective1Dense, Objective2Dense, Objective1Sparse, Objective2Sparse) on sum-of-squares problems, regularisation none (an identity proximal operator owned by the environment) / Tikhonov / l1, drawn step size 1/(3..6 L), epsilon, cap and Seed (SAGA's own sampling is seeded from the tape); faults: an evaluation that returns an error or NaN at a drawn call, hook cancellation, small caps; oracles: stated step criterion re-evaluated between the last published iterate and the returned point, distance to the analytic minimiser, hook arguments (relative step, lambda, epoch), an objective error is returned and never swallowed, no NaN point with err == nil. Scenarios blahut / blahut-faults: blahut.Run / RunNaive on drawn channels (2..4 inputs and outputs, zero entries for Run), drawn full-support start and step count, optional hook cancellation. Non-trivial = at least 3 evaluations. Distinct = (routine, exit reason, dimension, fault pattern, constraint kind, hook, family).",
+		Rule: "scenarios clean / faults: one run = one routine (BFGS, Rprop, gradient descent, Adam, Newton crit / min / root, line search) on one objective drawn from families with closed-form value, gradient, Hessian and optimum (SPD quadratics n=1..4 with condition number <= 100 built from drawn eigenvalues and rotations, Rosenbrock type, separable quartic, L2-regularised logistic loss, polynomial systems with planted roots), drawn start, epsilon, step sizes, eta, Hessian modification, optional constraint predicate (box / half space that holds at x0). The environment is the objective (derivatives handed back by the chain rule on the seeds stored in x), the constraint and the hook; in the fault scenario it injects up to two transient evaluation faults (error, NaN value, NaN gradient, biased to the first evaluations, i.e. inside the first line searches), a hook cancellation and small caps. Oracles over the recorded history: stopping condition re-evaluated in closed form at the returned point, distance to the minimiser on quadratics, constraint predicate at the returned point, hook arguments vs closed form at the hook's x, strong Wolfe conditions, x0 unchanged. Scenario line-search: the line search alone on rays through a family whose slope grows, shrinks and changes sign (sum of cosines plus a small quadratic; also the other non-convex families), first trial steps from 0.01 to 10, optional step constraint. Scenarios saga / saga-faults: saga.Run with the four objective types (Objective1Dense, Objective2Dense, Objective1Sparse, Objective2Sparse) on sum-of-squares problems, regularisation none (an identity proximal operator owned by the environment) / Tikhonov / l1, drawn step size 1/(3..6 L), epsilon, cap and Seed (SAGA's own sampling is seeded from the tape); faults: an evaluation that returns an error or NaN at a drawn call, hook cancellation, small caps; oracles: stated step criterion re-evaluated between the last published iterate and the returned point, distance to the analytic minimiser, hook arguments (relative step, lambda, epoch), an objective error is returned and never swallowed, no NaN point with err == nil. Scenarios blahut / blahut-faults: blahut.Run / RunNaive on drawn channels (2..4 inputs and outputs, zero entries for Run), drawn full-support start and step count, optional hook cancellation. Non-trivial = at least 3 evaluations. Distinct = (routine, exit reason, dimension, fault pattern, constraint kind, hook, family).",
 		Assumptions: []string{
 			"a run that ends with an error, a panic, a hook stop or at its iteration cap is not judged by the stopping-condition oracle",
 			"slack on epsilon: 1e-6 relative + 1e-12; hook arguments compared to 1e-9 relative",
@@ -776,7 +788,7 @@ func init() {
 		RealCode:     []string{"algorithm/bfgs, rprop, gradientDescent, adam, newton, lineSearch (and what they call: matrixInverse, cholesky, qrAlgorithm), algorithm/saga (dense and sparse variants, proximal operators, EvalStopping), algorithm/blahut (Run, RunNaive)"},
 		Stubs:        []string{"objective, constraint predicate, hook (the environment)"},
 		Caps:         map[string]int{"dimension": 4, "iteration_cap": 2000, "faults_per_run": 2},
-		QuickRuns:    150000,
+		QuickRuns:    180000,
 		ThoroughRuns: 3000000,
 		MarkEveryRun: true,
 	})
